@@ -1,23 +1,1211 @@
 package sym
 
-// ThreadTrace is one per-thread event trace (schedule layer, phase A).
-type ThreadTrace struct {
-	Thread string
-	Events []Event
+import (
+	"fmt"
+	"go/types"
+	"os"
+	"sort"
+	"strings"
+	"sync"
+	"time"
+
+	"golang.org/x/tools/go/ssa"
+)
+
+// ======================================================================
+// Schedule layer (DESIGN.md section 3).
+//
+// Phase A: every thread declared with verifThread is executed ALONE from the
+// state the harness built, by the same interpreter, with synchronisation and
+// every access to a pre-existing cell recorded as an event. Reads of cells
+// that another thread writes fork over their read-from candidates; atomic
+// counters are symbolic (initial + net delta of the other threads' RMWs that
+// precede). Phase B: for every combination of traces one SMT query per
+// property over integer timestamps decides whether SOME interleaving
+// consistent with mutexes, channels, WaitGroups and the chosen read-froms
+// violates it.
+// ======================================================================
+
+// SEvent is one event of a thread trace.
+type SEvent struct {
+	Kind string // acq rel rd wr ard awr rmw mrd mwr mkeys chan-close chan-recv chan-send wg-add wg-wait user spawn
+	Obj  string // stable object / cell name
+	Mode string // R | W for locks
+	Self bool   // acquire of a lock the thread already holds (self dead-lock)
+	// reads
+	RF     string // "" = own view (initial value or own last write); else "thread/trace/eventIdx" of the write read from
+	// writes
+	ValKey string // printable value (for matching / reports)
+	val    Value  // transferable value, if any
+	foreign bool  // value not transferable to another run
+	// atomics
+	Delta int64 // RMW delta (add)
+	X     *Term // symbolic "net delta of other threads before me" introduced at this access
+	// user
+	Args []string
+	N    int64
+	Pos  string
+	// locks held at a write: mutex -> "mode/sectionOrdinal"
+	Locks map[string]lockRef
 }
 
-func (in *Interp) threadCellEvent(p *Value, write, atomic bool) {}
-func (in *Interp) threadMapEvent(m *Map, kind string, key Value) {}
+type lockRef struct {
+	Mode string
+	Sec  int
+}
+
+func (e *SEvent) String() string {
+	s := e.Kind + " " + e.Obj
+	if e.Mode != "" {
+		s += " " + e.Mode
+	}
+	if e.RF != "" {
+		s += " rf=" + e.RF
+	}
+	if e.ValKey != "" {
+		s += " val=" + e.ValKey
+	}
+	if len(e.Args) > 0 {
+		s += " " + strings.Join(e.Args, ",")
+	}
+	if e.Self {
+		s += " [SELF]"
+	}
+	return s
+}
+
+// ThreadTrace is one per-thread event trace (phase A).
+type ThreadTrace struct {
+	Thread string
+	ID     int
+	Events []*SEvent
+	PC     []*Term // path condition over X variables
+	Status string  // done | deadlock-self | blocked | panic | foreign | unwind
+	Msg    string
+	tc     *TermCtx
+	key    string
+}
+
+// candidate write another thread performed on a cell this thread reads.
+type rfCand struct {
+	ID     string // thread/value
+	Thread string
+	Trace  int
+	Val    Value
+	ValKey string
+	Foreign bool
+	Delete bool // map delete
+	Locks  map[string]lockRef // locks the writer held
+	LastIn map[string]bool    // per held lock: last write to the cell within that critical section
+}
+
+type schedShared struct {
+	// cell -> candidates from OTHER threads (filled between rounds)
+	cands map[string]map[string][]rfCand // thread -> cell -> candidates
+	// atomic cells touched by other threads: thread -> cell -> true
+	atomics map[string]map[string]bool
+	// possible net deltas the other threads can have applied: thread -> cell -> values
+	deltas map[string]map[string][]int64
+}
+
+type threadCtxFull struct {
+	name     string
+	index    int
+	cells    map[*Value]string // registered pre-existing cells
+	maps     map[*Map]string
+	chans    map[*Chan]string
+	objByName map[string]Value // reverse: for transferring pointers
+}
+
+// ---------- registration of the pre-existing heap ----------
+
+type heapWalker struct {
+	in    *Interp
+	cells map[*Value]string
+	maps  map[*Map]string
+	chans map[*Chan]string
+	byName map[string]Value
+	seenSlice map[*Value]bool
+	n     int
+}
+
+func (w *heapWalker) name(prefix string) string {
+	w.n++
+	return fmt.Sprintf("%s%d", prefix, w.n)
+}
+
+func (w *heapWalker) cell(p *Value) {
+	if p == nil {
+		return
+	}
+	if _, ok := w.cells[p]; ok {
+		return
+	}
+	nm := w.name("c")
+	w.cells[p] = nm
+	w.byName[nm] = p
+	w.value(*p, p)
+}
+
+func (w *heapWalker) value(v Value, self *Value) {
+	switch x := v.(type) {
+	case Struct:
+		for i := range x {
+			w.cell(&x[i])
+		}
+	case Array:
+		if len(x) > 64 {
+			return // large tables (registry) are not walked element-wise
+		}
+		for i := range x {
+			w.cell(&x[i])
+		}
+	case Slice:
+		if len(x) > 64 {
+			return
+		}
+		for i := range x[:cap(x)] {
+			w.cell(&x[:cap(x)][i])
+		}
+	case *Value:
+		w.cell(x)
+	case Iface:
+		if x.T != nil {
+			w.value(x.V, nil)
+		}
+	case *Map:
+		if x == nil {
+			return
+		}
+		if _, ok := w.maps[x]; ok {
+			return
+		}
+		nm := w.name("m")
+		w.maps[x] = nm
+		w.byName[nm] = x
+		for _, e := range x.ent {
+			w.value(e.k, nil)
+			w.value(e.v, nil)
+		}
+	case *Chan:
+		if x == nil {
+			return
+		}
+		if _, ok := w.chans[x]; !ok {
+			nm := w.name("ch")
+			w.chans[x] = nm
+			w.byName[nm] = x
+		}
+	case *Closure:
+		if x != nil {
+			for _, e := range x.Env {
+				w.value(e, nil)
+			}
+		}
+	case UnsafePtr:
+		if b, ok := x.P.(*poolBag); ok && b != nil {
+			_ = b
+		}
+	}
+}
+
+// registerHeap walks everything reachable from the thread closures.
+func (in *Interp) registerHeap(roots []Value) *threadCtxFull {
+	w := &heapWalker{in: in, cells: map[*Value]string{}, maps: map[*Map]string{}, chans: map[*Chan]string{}, byName: map[string]Value{}}
+	for _, r := range roots {
+		w.value(r, nil)
+	}
+	return &threadCtxFull{cells: w.cells, maps: w.maps, chans: w.chans, objByName: w.byName}
+}
+
+// ---------- thread mode hooks ----------
+
+func (in *Interp) schedOn() bool { return in.thread != nil && in.thread.full != nil }
+
+func (in *Interp) sev(e *SEvent) *SEvent {
+	in.thread.trace.Events = append(in.thread.trace.Events, e)
+	return e
+}
+
+func (in *Interp) valKeyOf(v Value) (string, bool) {
+	full := in.thread.full
+	switch x := v.(type) {
+	case nil:
+		return "nil", true
+	case *Term:
+		if x.IsConst() {
+			return fmt.Sprintf("%d", x.K), true
+		}
+		return "sym", false
+	case string:
+		return "s:" + x, true
+	case *Value:
+		if x == nil {
+			return "nil", true
+		}
+		if n, ok := full.cells[x]; ok {
+			return "&" + n, true
+		}
+		return full.name + ":" + in.objName(x), false
+	case *Map:
+		if x == nil {
+			return "nil", true
+		}
+		if n, ok := full.maps[x]; ok {
+			return n, true
+		}
+		return fmt.Sprintf("%s:map%d", full.name, x.ID), false
+	case *Chan:
+		if x == nil {
+			return "nil", true
+		}
+		if n, ok := full.chans[x]; ok {
+			return n, true
+		}
+		// a channel created by this thread: transferable as an identity only
+		return fmt.Sprintf("%s:ch%d", in.thread.full.name, x.ID), true
+	case Iface:
+		if x.T == nil {
+			return "nil", true
+		}
+		k, ok := in.valKeyOf(x.V)
+		return x.T.String() + "/" + k, ok
+	case Struct:
+		if len(x) == 0 {
+			return "{}", true
+		}
+	}
+	return fmt.Sprintf("%T", v), false
+}
+
+// threadCellEvent is called on every load/store of a *Value cell.
+func (in *Interp) threadCellEvent(p *Value, write, atomic bool) {
+	if !in.schedOn() {
+		return
+	}
+	name, ok := in.thread.full.cells[p]
+	if !ok {
+		return
+	}
+	if in.thread.muteCells > 0 {
+		return
+	}
+	kind := "rd"
+	if write {
+		kind = "wr"
+	}
+	if atomic {
+		kind = "a" + kind
+	}
+	in.sev(&SEvent{Kind: kind, Obj: name})
+}
+
+// schedLoad intercepts loads of contended cells: forks over read-from candidates.
+func (in *Interp) schedLoad(p *Value) (Value, bool) {
+	if !in.schedOn() || in.thread.muteCells > 0 {
+		return nil, false
+	}
+	name, ok := in.thread.full.cells[p]
+	if !ok {
+		return nil, false
+	}
+	cands := in.thread.cands[name]
+	if len(cands) == 0 {
+		return nil, false
+	}
+	k := in.pickCand(name, cands)
+	if k < 0 {
+		return nil, false
+	}
+	c := cands[k]
+	ev := in.thread.trace.Events[len(in.thread.trace.Events)-1]
+	ev.RF = c.ID
+	if c.Foreign {
+		in.thread.trace.Status = "foreign"
+		in.thread.trace.Msg = "read of " + name + " would observe an object allocated by thread " + c.Thread
+		panic(pathEnd{"thread-end", "foreign"})
+	}
+	return in.importValue(c.Val), true
+}
+
+// importValue maps a value exported by another run into this run.
+func (in *Interp) importValue(v Value) Value {
+	switch x := v.(type) {
+	case exportedRef:
+		if o, ok := in.thread.full.objByName[x.name]; ok {
+			return o
+		}
+		if strings.Contains(x.name, ":ch") {
+			// foreign channel used as an identity
+			if in.thread.foreignChans == nil {
+				in.thread.foreignChans = map[string]*Chan{}
+			}
+			c := in.thread.foreignChans[x.name]
+			if c == nil {
+				c = &Chan{ID: -1, Cap: x.cap}
+				in.thread.foreignChans[x.name] = c
+				in.thread.full.chans[c] = x.name
+			}
+			return c
+		}
+		panic(engineErr{"importValue: unknown object " + x.name})
+	case exportedIface:
+		return Iface{T: x.t, V: in.importValue(x.v)}
+	}
+	return v
+}
+
+type exportedRef struct {
+	name string
+	cap  int
+}
+type exportedIface struct {
+	t types.Type
+	v Value
+}
+
+// exportValue turns a value into a form transferable to another run.
+func (in *Interp) exportValue(v Value) (Value, bool) {
+	full := in.thread.full
+	switch x := v.(type) {
+	case nil:
+		return nil, true
+	case *Term:
+		return x, x.IsConst() // terms are per-context: only constants transfer (re-made on import)
+	case string:
+		return x, true
+	case *Value:
+		if x == nil {
+			return x, true
+		}
+		if n, ok := full.cells[x]; ok {
+			return exportedRef{name: n}, true
+		}
+		return nil, false
+	case *Map:
+		if x == nil {
+			return x, true
+		}
+		if n, ok := full.maps[x]; ok {
+			return exportedRef{name: n}, true
+		}
+		return nil, false
+	case *Chan:
+		if x == nil {
+			return x, true
+		}
+		if n, ok := full.chans[x]; ok {
+			return exportedRef{name: n}, true
+		}
+		return exportedRef{name: fmt.Sprintf("%s:ch%d", full.name, x.ID), cap: x.Cap}, true
+	case Iface:
+		if x.T == nil {
+			return x, true
+		}
+		e, ok := in.exportValue(x.V)
+		return exportedIface{t: x.T, v: e}, ok
+	case Struct:
+		if len(x) == 0 {
+			return x, true
+		}
+	}
+	return nil, false
+}
+
+func (in *Interp) threadMapEvent(m *Map, kind string, key Value) {
+	if !in.schedOn() {
+		return
+	}
+	in.thread.lastMapEv = nil
+	name, ok := in.thread.full.maps[m]
+	if !ok {
+		return
+	}
+	switch kind {
+	case "range", "len":
+		in.sev(&SEvent{Kind: "mkeys", Obj: name})
+		return
+	}
+	kk, _ := in.valKeyOf(key)
+	ek := "mrd"
+	if kind == "wr" {
+		ek = "mwr"
+	}
+	in.thread.lastMapEv = in.sev(&SEvent{Kind: ek, Obj: name + "[" + kk + "]"})
+}
+
 func (in *Interp) threadAtomicRMW(p *Value, op string, old, nv *Term) *Term {
+	if !in.schedOn() {
+		*p = nv
+		return nv
+	}
+	name, ok := in.thread.full.cells[p]
+	if !ok {
+		*p = nv
+		return nv
+	}
+	delta := in.tc.Bin(OpSub, nv, old)
+	if !delta.IsConst() {
+		panic(engineErr{"atomic RMW with symbolic delta"})
+	}
+	ev := in.sev(&SEvent{Kind: "rmw", Obj: name, Delta: delta.Int64()})
+	// other threads may have moved the counter: value = own view + X
+	if in.thread.atomics[name] {
+		in.path.nvars++
+		x := in.tc.Var(fmt.Sprintf("X_%s_%d_w%d", in.thread.full.name, len(in.thread.trace.Events), nv.W), nv.W)
+		ev.X = x
+		in.constrainX(name, x)
+		seen := in.tc.Bin(OpAdd, nv, x)
+		*p = nv // own view keeps own deltas only
+		return seen
+	}
 	*p = nv
 	return nv
 }
-func (in *Interp) threadUserEvent(e Event) {}
-func (in *Interp) declareThread(fr *frame, name string, fn Value) {
-	panic(engineErr{"thread mode not available"})
+
+// schedAtomicLoad gives loads of contended atomic cells the same treatment.
+func (in *Interp) schedAtomicLoad(p *Value) (Value, bool) {
+	if !in.schedOn() {
+		return nil, false
+	}
+	name, ok := in.thread.full.cells[p]
+	if !ok || !in.thread.atomics[name] {
+		return nil, false
+	}
+	t, isT := (*p).(*Term)
+	if !isT || t.W == 0 {
+		return nil, false
+	}
+	ev := in.thread.trace.Events[len(in.thread.trace.Events)-1]
+	x := in.tc.Var(fmt.Sprintf("X_%s_%d_w%d", in.thread.full.name, len(in.thread.trace.Events), t.W), t.W)
+	ev.X = x
+	in.constrainX(name, x)
+	return in.tc.Bin(OpAdd, t, x), true
 }
 
-// RunSched runs a schedule-layer harness (placeholder until the layer is built).
-func RunSched(l *Loaded, f interface{}, params map[string]int, workers, timeoutMs int, verbose bool) *HarnessResult {
-	return &HarnessResult{Harness: "sched", EngineErrors: map[string]int{"schedule layer not built": 1}, Statuses: map[string]int{}, Reached: map[string]int{}, Distinct: map[string]bool{}, Funcs: map[string]bool{}, Stubs: map[string]bool{}}
+func (in *Interp) threadUserEvent(e Event) {
+	if !in.schedOn() {
+		return
+	}
+	in.sev(&SEvent{Kind: "user", Obj: e.Obj, Args: e.Args})
+}
+
+// declareThread implements verifThread(name, f).
+func (in *Interp) declareThread(fr *frame, name string, fn Value) {
+	idx := in.nthreads
+	in.nthreads++
+	ti := in.param("thread_index", -1)
+	if ti < 0 {
+		// not in schedule mode: run sequentially
+		in.call(fr, fr.callPos, fn, nil)
+		return
+	}
+	if idx == 0 {
+		// stable names for everything that exists now; later threads' closures
+		// capture the same objects
+		in.schedRoots = nil
+	}
+	in.schedRoots = append(in.schedRoots, fn)
+	if in.ex != nil && in.ex.schedNames != nil {
+		in.ex.mu.Lock()
+		if idx >= len(*in.ex.schedNames) {
+			*in.ex.schedNames = append(*in.ex.schedNames, name)
+		}
+		in.ex.mu.Unlock()
+	}
+	if idx != ti {
+		return
+	}
+	// register the heap reachable from ALL closures declared so far plus the
+	// rest of the harness frame (so that later-declared threads share names)
+	roots := append([]Value{}, in.schedRoots...)
+	for _, v := range fr.caller.env {
+		roots = append(roots, v)
+	}
+	// deterministic order: env is a Go map -> sort by SSA value name
+	type kv struct {
+		k string
+		v Value
+	}
+	var kvs []kv
+	for k, v := range fr.caller.env {
+		kvs = append(kvs, kv{k.Name(), v})
+	}
+	sort.Slice(kvs, func(i, j int) bool { return kvs[i].k < kvs[j].k })
+	roots = roots[:0]
+	for _, e := range kvs {
+		roots = append(roots, e.v)
+	}
+	// globals of the package under test (sorted)
+	var gs []*ssa.Global
+	for g := range in.globals {
+		if g.Pkg != nil && strings.HasPrefix(g.Pkg.Pkg.Path(), ModulePath) {
+			gs = append(gs, g)
+		}
+	}
+	sort.Slice(gs, func(i, j int) bool { return gs[i].String() < gs[j].String() })
+	for _, g := range gs {
+		roots = append(roots, in.globals[g])
+	}
+	full := in.registerHeap(roots)
+	full.name = name
+	full.index = idx
+	sh := in.ex.schedShared
+	th := &threadCtx{held: map[*Value]string{}, rdepth: map[*Value]int{}, recvWaits: true, full: full,
+		trace: &ThreadTrace{Thread: name, tc: in.tc}}
+	if sh != nil {
+		th.cands = sh.cands[name]
+		th.atomics = sh.atomics[name]
+		if sh.deltas != nil {
+			th.deltas = sh.deltas[name]
+		}
+	}
+	if th.cands == nil {
+		th.cands = map[string][]rfCand{}
+	}
+	if th.atomics == nil {
+		th.atomics = map[string]bool{}
+	}
+	in.thread = th
+	status := "done"
+	msg := ""
+	func() {
+		defer func() {
+			if r := recover(); r != nil {
+				switch r := r.(type) {
+				case pathEnd:
+					switch r.status {
+					case "deadlock":
+						status, msg = "deadlock-self", r.msg
+					case "blocked":
+						status, msg = "blocked", r.msg
+					case "thread-end":
+						status, msg = th.trace.Status, th.trace.Msg
+					default:
+						panic(r)
+					}
+				case targetPanic:
+					status, msg = "panic", in.panicString(r.v)
+				default:
+					panic(r)
+				}
+			}
+		}()
+		in.call(fr, fr.callPos, fn, nil)
+	}()
+	th.trace.Status, th.trace.Msg = status, msg
+	th.trace.PC = append([]*Term(nil), in.path.pc...)
+	// export written values
+	panic(pathEnd{"thread-done", name})
+}
+
+// ---------- phase A driver ----------
+
+// RunSched runs a schedule harness. With a "scenarios" parameter the harness
+// is run once per scenario index (in parallel), results are aggregated.
+func RunSched(l *Loaded, fnv interface{}, params map[string]int, workers, timeoutMs int, verbose bool) *HarnessResult {
+	fn := fnv.(*ssa.Function)
+	n, multi := params["scenarios"]
+	if !multi {
+		return runSchedOne(l, fn, params, workers, timeoutMs, verbose)
+	}
+	t0 := time.Now()
+	agg := &HarnessResult{Harness: fn.Name(), Params: params, Statuses: map[string]int{}, Reached: map[string]int{},
+		Distinct: map[string]bool{}, EngineErrors: map[string]int{}, Funcs: map[string]bool{}, Stubs: map[string]bool{}, ViolCount: map[string]int{}}
+	first, step := params["scenario_first"], params["scenario_step"]
+	if step <= 0 {
+		step = 1
+	}
+	type job struct{ sc int }
+	jobs := make(chan int, n)
+	for sc := first; sc < n; sc += step {
+		jobs <- sc
+	}
+	close(jobs)
+	var mu sync.Mutex
+	var wg sync.WaitGroup
+	for w := 0; w < workers; w++ {
+		wg.Add(1)
+		go func() {
+			defer wg.Done()
+			for sc := range jobs {
+				p := map[string]int{}
+				for k, v := range params {
+					p[k] = v
+				}
+				delete(p, "scenarios")
+				p["scenario"] = sc
+				r := runSchedOne(l, fn, p, 1, timeoutMs, false)
+				mu.Lock()
+				agg.Paths += r.Paths
+				agg.Steps += r.Steps
+				agg.Queries += r.Queries
+				agg.NSat += r.NSat
+				agg.NUnsat += r.NUnsat
+				agg.NUnknown += r.NUnknown
+				agg.Unknown += r.Unknown
+				agg.SolveTime += r.SolveTime
+				agg.Asserts += r.Asserts
+				agg.Discharged += r.Discharged
+				agg.SchedStates += r.SchedStates
+				agg.SchedTransitions += r.SchedTransitions
+				for k := range r.Distinct {
+					agg.Distinct[fmt.Sprintf("s%d/%s", sc, k)] = true
+				}
+				for k, v := range r.Reached {
+					agg.Reached[k] += v
+				}
+				for k, v := range r.EngineErrors {
+					agg.EngineErrors[fmt.Sprintf("scenario %d: %s", sc, k)] += v
+				}
+				for k, v := range r.Undecided {
+					if agg.Undecided == nil {
+						agg.Undecided = map[string]int{}
+					}
+					agg.Undecided[fmt.Sprintf("scenario %d: %s", sc, k)] += v
+				}
+				for k, v := range r.Statuses {
+					agg.Statuses[k] += v
+				}
+				for k, v := range r.Unwinds {
+					if agg.Unwinds == nil {
+						agg.Unwinds = map[string]int{}
+					}
+					agg.Unwinds[k] += v
+				}
+				for f := range r.Funcs {
+					agg.Funcs[f] = true
+				}
+				for s := range r.Stubs {
+					agg.Stubs[s] = true
+				}
+				for _, v := range r.Violations {
+					if v.Params == nil {
+						v.Params = map[string]int{}
+					}
+					v.Params = p
+					sig := violSig(&v)
+					agg.ViolCount[sig]++
+					agg.NViolations++
+					if agg.ViolCount[sig] <= 3 {
+						agg.Violations = append(agg.Violations, v)
+					}
+				}
+				if len(agg.Samples) < 6 {
+					agg.Samples = append(agg.Samples, r.Samples...)
+				}
+				agg.Reached["scenarios-run"]++
+				mu.Unlock()
+			}
+		}()
+	}
+	wg.Wait()
+	agg.Wall = time.Since(t0)
+	return agg
+}
+
+func runSchedOne(l *Loaded, fn *ssa.Function, params map[string]int, workers, timeoutMs int, verbose bool) *HarnessResult {
+	t0 := time.Now()
+	res := &HarnessResult{Harness: fn.Name(), Params: params, Statuses: map[string]int{}, Reached: map[string]int{},
+		Distinct: map[string]bool{}, EngineErrors: map[string]int{}, Funcs: map[string]bool{}, Stubs: map[string]bool{}}
+	var names []string
+	shared := &schedShared{cands: map[string]map[string][]rfCand{}, atomics: map[string]map[string]bool{}}
+	var traces [][]*ThreadTrace
+	maxRounds := 6
+	if v, ok := params["rf_rounds"]; ok {
+		maxRounds = v
+	}
+	prevSig := ""
+	converged := false
+	{
+		// discovery run: declares every thread, runs none
+		p := map[string]int{}
+		for k, v := range params {
+			p[k] = v
+		}
+		p["thread_index"] = 1 << 20
+		ex := &Explorer{L: l, Fn: fn, Params: p, Workers: 1, TimeoutMs: timeoutMs}
+		ex.schedNames = &names
+		r := ex.Run()
+		for m, n := range r.EngineErrors {
+			res.EngineErrors[m] += n
+		}
+		for k, v := range r.Reached {
+			res.Reached[k] += v
+		}
+	}
+	for round := 0; round < maxRounds; round++ {
+		traces = nil
+		nthreads := len(names)
+		for ti := 0; ti < nthreads; ti++ {
+			p := map[string]int{}
+			for k, v := range params {
+				p[k] = v
+			}
+			p["thread_index"] = ti
+			ex := &Explorer{L: l, Fn: fn, Params: p, Workers: workers, TimeoutMs: timeoutMs, Verbose: false}
+			ex.schedShared = shared
+			ex.schedNames = &names
+			ex.MaxPaths = 3000
+			r := ex.Run()
+			if os.Getenv("VERIF_SCHED_DEBUG") != "" {
+				fmt.Printf("  [sched] round %d thread %d: paths=%d traces=%d wall=%.1fs cands=%d\n", round, ti, r.Paths, len(r.Traces), r.Wall.Seconds(), len(shared.cands[names[ti]]))
+			}
+			if r.MaxPaths {
+				res.EngineErrors["phase A path budget exhausted (read-from forks)"]++
+			}
+			res.Paths += r.Paths
+			res.Steps += r.Steps
+			res.Queries += r.Queries
+			res.NSat += r.NSat
+			res.NUnsat += r.NUnsat
+			res.NUnknown += r.NUnknown
+			res.SolveTime += r.SolveTime
+			for f := range r.Funcs {
+				res.Funcs[f] = true
+			}
+			for s := range r.Stubs {
+				res.Stubs[s] = true
+			}
+			for m, n := range r.EngineErrors {
+				res.EngineErrors[m] += n
+			}
+			for m, n := range r.Unwinds {
+				if res.Unwinds == nil {
+					res.Unwinds = map[string]int{}
+				}
+				res.Unwinds[m] += n
+			}
+			for st, n := range r.Statuses {
+				if st != "end:thread-done" && st != "end:assume" {
+					res.Statuses[st] += n
+				}
+			}
+			res.Violations = append(res.Violations, r.Violations...)
+			if len(names) > nthreads {
+				nthreads = len(names)
+			}
+			tt := r.Traces
+			sort.Slice(tt, func(i, j int) bool { return tt[i].sig() < tt[j].sig() })
+			for i, t := range tt {
+				t.ID = i
+			}
+			traces = append(traces, tt)
+		}
+		// candidates for the next round
+		shared = buildCandidates(names, traces)
+		sig := candSig(shared)
+		if sig == prevSig {
+			converged = true
+			break
+		}
+		prevSig = sig
+	}
+	if !converged {
+		if res.Undecided == nil {
+			res.Undecided = map[string]int{}
+		}
+		res.Undecided["read-from fixpoint not reached within the round bound"]++
+	}
+	ntr := 0
+	nev := 0
+	for _, tt := range traces {
+		ntr += len(tt)
+		for _, t := range tt {
+			nev += len(t.Events)
+		}
+	}
+	res.SchedStates = ntr
+	res.SchedTransitions = nev
+	if verbose {
+		for i, tt := range traces {
+			fmt.Printf("  thread %s: %d traces\n", names[i], len(tt))
+			for _, t := range tt {
+				fmt.Printf("    trace %d status=%s events=%d pc=%d %s\n", t.ID, t.Status, len(t.Events), len(t.PC), t.Msg)
+				if verbose {
+					for k, e := range t.Events {
+						if e.Kind == "rd" || e.Kind == "wr" || e.Kind == "mrd" {
+							if e.RF == "" {
+								continue
+							}
+						}
+						fmt.Printf("       %3d %s\n", k, e)
+					}
+				}
+			}
+		}
+	}
+	phaseB(l, res, names, traces, params, timeoutMs, verbose)
+	res.Wall = time.Since(t0)
+	return res
+}
+
+func (t *ThreadTrace) sig() string {
+	if t.key != "" {
+		return t.key
+	}
+	var sb strings.Builder
+	sb.WriteString(t.Status)
+	for _, e := range t.Events {
+		sb.WriteString("|")
+		sb.WriteString(e.Kind)
+		sb.WriteString(e.Obj)
+		sb.WriteString(e.Mode)
+		sb.WriteString(e.RF)
+		sb.WriteString(e.ValKey)
+		sb.WriteString(strings.Join(e.Args, ","))
+	}
+	t.key = sb.String()
+	return t.key
+}
+
+// buildCandidates computes, per thread, the read-from candidates of every
+// cell it reads that some other thread writes, and the atomic cells other
+// threads modify.
+func buildCandidates(names []string, traces [][]*ThreadTrace) *schedShared {
+	sh := &schedShared{cands: map[string]map[string][]rfCand{}, atomics: map[string]map[string]bool{}}
+	type wr struct {
+		cand rfCand
+		cell string
+	}
+	writes := map[string][]wr{} // thread -> writes
+	atom := map[string]map[string]bool{}
+	reads := map[string]map[string]bool{}
+	for ti, tt := range traces {
+		th := names[ti]
+		atom[th] = map[string]bool{}
+		reads[th] = map[string]bool{}
+		seen := map[string]bool{}
+		for _, t := range tt {
+			for k, e := range t.Events {
+				switch e.Kind {
+				case "wr", "awr", "mwr":
+					key := e.Obj + "=" + e.ValKey + lockSig(e.Locks)
+					if seen[key] {
+						continue
+					}
+					seen[key] = true
+					lastIn := map[string]bool{}
+					for m, lr := range e.Locks {
+						last := true
+						for k2 := k + 1; k2 < len(t.Events); k2++ {
+							e2 := t.Events[k2]
+							if (e2.Kind == "wr" || e2.Kind == "awr" || e2.Kind == "mwr") && e2.Obj == e.Obj {
+								if l2, ok := e2.Locks[m]; ok && l2.Sec == lr.Sec {
+									last = false
+								}
+							}
+						}
+						lastIn[m] = last
+					}
+					writes[th] = append(writes[th], wr{rfCand{ID: th + "/" + e.ValKey, Thread: th, Trace: t.ID, Val: e.val, ValKey: e.ValKey, Foreign: e.foreign, Locks: e.Locks, LastIn: lastIn}, e.Obj})
+				case "rmw":
+					atom[th][e.Obj] = true
+				case "rd", "ard", "mrd":
+					reads[th][e.Obj] = true
+				}
+			}
+		}
+	}
+	for ti := range traces {
+		th := names[ti]
+		sh.cands[th] = map[string][]rfCand{}
+		sh.atomics[th] = map[string]bool{}
+		for tj := range traces {
+			if tj == ti {
+				continue
+			}
+			o := names[tj]
+			for _, w := range writes[o] {
+				if reads[th][w.cell] {
+					sh.cands[th][w.cell] = append(sh.cands[th][w.cell], w.cand)
+				}
+			}
+			for c := range atom[o] {
+				sh.atomics[th][c] = true
+			}
+		}
+	}
+	// possible net deltas: for each thread and cell, the sums of one prefix sum per other thread
+	sh.deltas = map[string]map[string][]int64{}
+	prefix := map[string]map[string]map[int64]bool{} // thread -> cell -> prefix sums
+	for ti, tt := range traces {
+		th := names[ti]
+		prefix[th] = map[string]map[int64]bool{}
+		for _, t := range tt {
+			sums := map[string]int64{}
+			for _, e := range t.Events {
+				if e.Kind == "rmw" {
+					if prefix[th][e.Obj] == nil {
+						prefix[th][e.Obj] = map[int64]bool{0: true}
+					}
+					sums[e.Obj] += e.Delta
+					prefix[th][e.Obj][sums[e.Obj]] = true
+				}
+			}
+		}
+	}
+	for ti := range traces {
+		th := names[ti]
+		sh.deltas[th] = map[string][]int64{}
+		for c := range sh.atomics[th] {
+			acc := map[int64]bool{0: true}
+			for tj := range traces {
+				if tj == ti {
+					continue
+				}
+				ps := prefix[names[tj]][c]
+				if len(ps) == 0 {
+					continue
+				}
+				next := map[int64]bool{}
+				for a := range acc {
+					for p := range ps {
+						next[a+p] = true
+					}
+				}
+				acc = next
+			}
+			var vals []int64
+			for v := range acc {
+				vals = append(vals, v)
+			}
+			sort.Slice(vals, func(a, b int) bool { return vals[a] < vals[b] })
+			sh.deltas[th][c] = vals
+		}
+	}
+	return sh
+}
+
+func candSig(sh *schedShared) string {
+	var parts []string
+	for th, m := range sh.cands {
+		for c, l := range m {
+			for _, x := range l {
+				parts = append(parts, th+":"+c+"<-"+x.Thread+"="+x.ValKey)
+			}
+		}
+	}
+	for th, m := range sh.atomics {
+		for c := range m {
+			parts = append(parts, th+":A:"+c)
+		}
+	}
+	for th, m := range sh.deltas {
+		for c, vs := range m {
+			parts = append(parts, fmt.Sprintf("%s:D:%s=%v", th, c, vs))
+		}
+	}
+	sort.Strings(parts)
+	return strings.Join(parts, ";")
+}
+
+// schedStoreValue annotates the write event just recorded with its value.
+func (in *Interp) schedStoreValue(p *Value, v Value) {
+	if !in.schedOn() || in.thread.muteCells > 0 {
+		return
+	}
+	if _, ok := in.thread.full.cells[p]; !ok {
+		return
+	}
+	ev := in.thread.trace.Events[len(in.thread.trace.Events)-1]
+	if ev.Kind != "wr" && ev.Kind != "awr" {
+		return
+	}
+	switch v.(type) {
+	case Struct, Array:
+		ev.ValKey = "aggregate"
+		ev.foreign = true
+		return
+	}
+	k, _ := in.valKeyOf(v)
+	ev.ValKey = k
+	e, ok := in.exportValue(v)
+	ev.val, ev.foreign = e, !ok
+	in.noteWriteLocks(ev)
+}
+
+// noteWriteLocks records the locks held at a write (for the atomicity reduction).
+func (in *Interp) noteWriteLocks(ev *SEvent) {
+	th := in.thread
+	if len(th.heldSec) == 0 {
+		return
+	}
+	ev.Locks = map[string]lockRef{}
+	for m, r := range th.heldSec {
+		ev.Locks[m] = r
+		th.ownWrote[fmt.Sprintf("%s|%d|%s", m, r.Sec, ev.Obj)] = true
+	}
+}
+
+// pickCand chooses what a read of a contended cell observes. Lock-based
+// atomicity reduction: if the reader and a candidate write share a mutex (not
+// both in read mode), the reader's whole critical section is either after the
+// writer's section (it sees the LAST write of that section) or before it (it
+// sees none of them); the choice is made once per pair of sections.
+// Returns the chosen candidate index, or -1 for the reader's own view.
+func (in *Interp) pickCand(cell string, cands []rfCand) int {
+	th := in.thread
+	if th.decided == nil {
+		th.secCount, th.heldSec, th.decided, th.ownWrote = map[string]int{}, map[string]lockRef{}, map[string]bool{}, map[string]bool{}
+	}
+	type opt struct {
+		idx    int
+		forced bool
+	}
+	var opts []opt
+	ownAllowed := true
+	for i, c := range cands {
+		allowed, forced := true, false
+		for m, wl := range c.Locks {
+			my, held := th.heldSec[m]
+			if !held || (my.Mode == "R" && wl.Mode == "R") {
+				continue
+			}
+			key := fmt.Sprintf("%s|%d|%s|%d", m, my.Sec, c.Thread, wl.Sec)
+			if d, ok := th.decided[key]; ok {
+				if !d {
+					allowed = false // my section precedes theirs
+				} else if !c.LastIn[m] {
+					allowed = false // overwritten later in their section
+				} else if th.ownWrote[fmt.Sprintf("%s|%d|%s", m, my.Sec, cell)] {
+					allowed = false // I overwrote it since
+				} else {
+					forced = true
+				}
+			} else if !c.LastIn[m] {
+				allowed = false // only the final value of a critical section is visible outside it
+			}
+		}
+		if allowed {
+			opts = append(opts, opt{i, forced})
+			if forced {
+				ownAllowed = false
+			}
+		}
+	}
+	if !ownAllowed {
+		var f []opt
+		for _, o := range opts {
+			if o.forced {
+				f = append(f, o)
+			}
+		}
+		opts = f
+	}
+	n := len(opts)
+	if ownAllowed {
+		n++
+	}
+	if n == 0 {
+		return -1
+	}
+	k := 0
+	if n > 1 {
+		k = in.choice(n, "rf")
+	}
+	chosen := -1
+	if ownAllowed {
+		if k > 0 {
+			chosen = opts[k-1].idx
+		}
+	} else {
+		chosen = opts[k].idx
+	}
+	// record the section-order decisions this choice implies
+	for i, c := range cands {
+		for m, wl := range c.Locks {
+			my, held := th.heldSec[m]
+			if !held || (my.Mode == "R" && wl.Mode == "R") {
+				continue
+			}
+			key := fmt.Sprintf("%s|%d|%s|%d", m, my.Sec, c.Thread, wl.Sec)
+			if _, ok := th.decided[key]; ok {
+				continue
+			}
+			if i == chosen {
+				th.decided[key] = true
+			} else if chosen == -1 && c.LastIn[m] {
+				th.decided[key] = false
+			}
+		}
+	}
+	return chosen
+}
+
+// schedMapWrite annotates a map write event.
+func (in *Interp) schedMapWrite(v Value, deleted bool) {
+	if !in.schedOn() {
+		return
+	}
+	ev := in.thread.lastMapEv
+	if ev == nil || ev.Kind != "mwr" {
+		return
+	}
+	if deleted {
+		ev.ValKey = "<deleted>"
+		ev.val = nil
+		in.noteWriteLocks(ev)
+		return
+	}
+	k, _ := in.valKeyOf(v)
+	ev.ValKey = k
+	e, ok := in.exportValue(v)
+	ev.val, ev.foreign = e, !ok
+	in.noteWriteLocks(ev)
+}
+
+// schedMapRead forks a map lookup over the other threads' writes to the key.
+// It returns (value, present, overridden).
+func (in *Interp) schedMapRead() (Value, bool, bool) {
+	if !in.schedOn() {
+		return nil, false, false
+	}
+	ev := in.thread.lastMapEv
+	if ev == nil || ev.Kind != "mrd" {
+		return nil, false, false
+	}
+	cands := in.thread.cands[ev.Obj]
+	if len(cands) == 0 {
+		return nil, false, false
+	}
+	k := in.pickCand(ev.Obj, cands)
+	if k < 0 {
+		return nil, false, false
+	}
+	c := cands[k]
+	ev.RF = c.ID
+	if c.ValKey == "<deleted>" {
+		return nil, false, true
+	}
+	if c.Foreign {
+		in.thread.trace.Status = "foreign"
+		in.thread.trace.Msg = "lookup of " + ev.Obj + " would observe an object allocated by thread " + c.Thread
+		panic(pathEnd{"thread-end", "foreign"})
+	}
+	return in.importValue(c.Val), true, true
+}
+
+func lockSig(l map[string]lockRef) string {
+	var ks []string
+	for m, r := range l {
+		ks = append(ks, fmt.Sprintf("%s%s%d", m, r.Mode, r.Sec))
+	}
+	sort.Strings(ks)
+	return "@" + strings.Join(ks, ",")
+}
+
+// constrainX restricts the symbolic net delta of the other threads to the
+// values their traces can actually produce (prefix sums of their RMW deltas).
+func (in *Interp) constrainX(cell string, x *Term) {
+	vals := in.thread.deltas[cell]
+	if len(vals) == 0 {
+		in.addPC(in.tc.Eq(x, in.tc.BV(x.W, 0)))
+		return
+	}
+	c := in.tc.False
+	for _, v := range vals {
+		c = in.tc.Or(c, in.tc.Eq(x, in.tc.BV(x.W, uint64(v))))
+	}
+	in.addPC(c)
 }
